@@ -1,100 +1,210 @@
 ------------------------------- MODULE GrammarF ------------------------------
-(* Producer of protocol-conforming ITS streams (targets none / ITS, not stave) *)
-(* composed with the per-link checker.  The producer remembers only grammar    *)
-(* state; the checker consumes RDHs and words as they are produced; the        *)
-(* emitted stream is a history variable hidden by the VIEW.                    *)
+(* The producer: protocol-conforming ITS streams (targets none / ITS, not the   *)
+(* ALPIDE content: see GrammarStave), composed with the per-link checker, and   *)
+(* - when Faults = TRUE - the FAULT CATALOGUE: at most one documented rule is   *)
+(* broken per behaviour, by the same action emitting a corrupted item.          *)
+(*                                                                              *)
+(* The producer remembers only grammar state; the checker consumes RDHs and     *)
+(* words as they are produced; the emitted stream is a history variable hidden  *)
+(* by the VIEW.  Grammar.tla is this module with Faults = FALSE.                *)
+(*                                                                              *)
+(* Catalogue (rule -> error family expected AT the offending RDH / word):       *)
+(*  RDH sanity (E10): header id, header size, FEE layer 7 / stave 48 / reserved *)
+(*    bits, priority, system id (ITS targets), RDH0/1/2/3 reserved, BC 0xdec    *)
+(*    and 0xF00, stop bit 2, trigger 0 and spare trigger bit, detector field    *)
+(*    bits 12 and 23, dw 2                                                      *)
+(*  RDH running (E11): page skipped, page repeated, orbit / trigger / FEE       *)
+(*    changed on page > 0, orbit unchanged after a stop                         *)
+(*  state-dependent, located at the first word of the packet: IHW on a page     *)
+(*    with stop bit (E12), DDW0 without stop bit (E110), DDW0 on page 0 (E111)  *)
+(*  words: IHW/TDH/TDT/DDW0 id (E30/E40/E99x by state) and reserved bits, TDH   *)
+(*    without trigger, DDW0 index; first TDH: continuation (E42), orbit (E444), *)
+(*    bc (E445), trigger type (E44) vs RDH; next TDH: bc decreasing (E440);     *)
+(*    continuation TDH: continuation 0 (E41), bc (E441), orbit (E442), trigger  *)
+(*    type (E443); CDW user field changed with index != 0 (E81); data word id   *)
+(*    invalid (E70), lane inactive (E72 inner / E71 outer), outer input 7 (E73) *)
+(*  payload: more than 15 bytes of 0xFF padding (code-less payload error at the *)
+(*    RDH; the protocol state is reset)                                         *)
 EXTENDS ItsChecker, Mk, TLC
 
-CONSTANTS Links, MaxHbf, MaxPages, MaxWords, Df, Ver, Running, Its
+CONSTANTS Links, MaxHbf, MaxPages, MaxWords, Df, Ver, Running, Its,
+          Faults,      \* BOOLEAN: fault actions enabled
+          Ob           \* BOOLEAN: outer-barrel data words (layer 5) instead of inner-barrel ones (layer 1)
 VARIABLES g, chk, stream, errs, fault, noff
 vars == << g, chk, stream, errs, fault, noff >>
 
-FeeOf(l) == 4096 + 256 * (l % 3) + 7 + l          \* layer 1 (inner barrel), distinct staves
-LanesOf(l) == 7
-LaneIds == {32, 34}
+FeeOf(l) == IF Ob THEN 5 * 4096 + 256 * (l % 2) + 40 + l ELSE 4096 + 256 * (l % 3) + 7 + l          \* distinct staves
+LanesOf(l) == IF Ob THEN 1 + 2 + 256 ELSE 7                      \* OB: lanes 0, 1, 8 active; IB: lanes 0, 1, 2
+LaneIds == IF Ob THEN {64, 73} ELSE {32, 34}                     \* 0x40 (lane 0, input 0), 0x49 (lane 8, input 1) / lanes 0, 2
+InactiveId == IF Ob THEN 66 ELSE 37                              \* valid id, lane not active (OB lane 2 / IB lane 5)
 BcDom == {0, 3563}                                 \* includes the accepting boundary 0xdeb
 TtRdh(h) == IF h = 1 THEN 27139 ELSE 24595        \* 0x6A03, 0x6013
 OrbitOf(h) == 1000 + h
 Cfg == [running |-> Running, its |-> Its]
-PayLen(n) == IF Df = 0 THEN 16 * n ELSE 10 * n + ((16 - ((10 * n) % 16)) % 16)
+PayLen(n, xpad) == (IF Df = 0 THEN 16 * n ELSE 10 * n + ((16 - ((10 * n) % 16)) % 16)) + xpad
+
+RunningFams == {"11", "12", "110", "111", "41", "42", "440", "441", "442", "443", "444", "445", "44", "81", "71", "72", "73"}
+NoFault == [kind |-> "none", off |-> 0, fam |-> "", pending |-> FALSE]
 
 GInit == [hbf |-> 1, page |-> 0, fsm |-> "IHW", n |-> 0, rbc |-> 0, last |-> NoTdh, open |-> FALSE, sod |-> TRUE,
-          cdwDone |-> FALSE, dataSeen |-> FALSE, done |-> FALSE, cur |-> 0, poff |-> 0]
+          cdwDone |-> FALSE, dataSeen |-> FALSE, done |-> FALSE, cur |-> 0, poff |-> 0, stop |-> 0, padf |-> FALSE]
 Init == /\ g = [l \in Links |-> GInit] /\ chk = [l \in Links |-> LinkInit] /\ stream = << >> /\ errs = << >>
-        /\ fault = [kind |-> "none", off |-> 0, fam |-> ""] /\ noff = 0
+        /\ fault = NoFault /\ noff = 0
 
 RdhOf(l, page, stop, bc) ==
    MkRdh([ver |-> Ver, fee |-> FeeOf(l), sys |-> 32, size |-> 64, link |-> l, pkt |-> 0, bc |-> bc, orbit |-> OrbitOf(g[l].hbf),
           df |-> Df, tt |-> TtRdh(g[l].hbf), page |-> page, stop |-> stop, det |-> 2048 + 16777216 + 15])     \* detector-field bits 11, 24 and the lane status bits: all legal
-CurRdh(l) == stream[g[l].cur].rdh
+CurRdh(l) == stream[g[l].cur].rdh            \* the bytes as emitted (possibly corrupted): what the checker sees
+
+\* ---------------------------------------------------------------- RDH fault catalogue
+\* at: "rdh" = reported at the RDH's offset when it is read; "word" = reported at the first word of the packet (pending until then)
+RdhFaultKinds ==
+  { [kind |-> "rdh_header_id",      fam |-> "10",  at |-> "rdh"],
+    [kind |-> "rdh_header_size",    fam |-> "10",  at |-> "rdh"],
+    [kind |-> "rdh_fee_layer7",     fam |-> "10",  at |-> "rdh"],
+    [kind |-> "rdh_fee_stave48",    fam |-> "10",  at |-> "rdh"],
+    [kind |-> "rdh_fee_reserved",   fam |-> "10",  at |-> "rdh"],
+    [kind |-> "rdh_priority",       fam |-> "10",  at |-> "rdh"],
+    [kind |-> "rdh_sysid",          fam |-> "10",  at |-> "rdh"],
+    [kind |-> "rdh_rdh0_reserved",  fam |-> "10",  at |-> "rdh"],
+    [kind |-> "rdh_bc_dec",         fam |-> "10",  at |-> "rdh"],
+    [kind |-> "rdh_bc_f00",         fam |-> "10",  at |-> "rdh"],
+    [kind |-> "rdh_rdh1_reserved",  fam |-> "10",  at |-> "rdh"],
+    [kind |-> "rdh_stop2",          fam |-> "10",  at |-> "rdh"],
+    [kind |-> "rdh_trigger_zero",   fam |-> "10",  at |-> "rdh"],
+    [kind |-> "rdh_trigger_spare",  fam |-> "10",  at |-> "rdh"],
+    [kind |-> "rdh_rdh2_reserved",  fam |-> "10",  at |-> "rdh"],
+    [kind |-> "rdh_detfield12",     fam |-> "10",  at |-> "rdh"],
+    [kind |-> "rdh_detfield23",     fam |-> "10",  at |-> "rdh"],
+    [kind |-> "rdh_rdh3_reserved",  fam |-> "10",  at |-> "rdh"],
+    [kind |-> "rdh_dw2",            fam |-> "10",  at |-> "rdh"],
+    [kind |-> "rdh_page_skip",      fam |-> "11",  at |-> "rdh"],
+    [kind |-> "rdh_page_repeat",    fam |-> "11",  at |-> "rdh"],
+    [kind |-> "rdh_orbit_change",   fam |-> "11",  at |-> "rdh"],
+    [kind |-> "rdh_trigger_change", fam |-> "11",  at |-> "rdh"],
+    [kind |-> "rdh_fee_change",     fam |-> "11",  at |-> "rdh"],
+    [kind |-> "rdh_orbit_same_after_stop", fam |-> "11", at |-> "rdh"],
+    [kind |-> "rdh_stop1_on_ihw_page",  fam |-> "12",  at |-> "word"],
+    [kind |-> "rdh_stop0_on_ddw0_page", fam |-> "110", at |-> "word"],
+    [kind |-> "rdh_page0_on_ddw0_page", fam |-> "111", at |-> "word"] }
+
+Set(r, i, v) == [r EXCEPT ![i + 1] = v]          \* byte i (0-based) := v
+ApplyRdh(kind, r, l) ==
+   CASE kind = "rdh_header_id"     -> Set(r, 0, IF Ver = 7 THEN 6 ELSE 7)
+     [] kind = "rdh_header_size"   -> Set(r, 1, 65)
+     [] kind = "rdh_fee_layer7"    -> Set(r, 3, 112 + (B(r, 3) % 16))
+     [] kind = "rdh_fee_stave48"   -> Set(r, 2, 48)
+     [] kind = "rdh_fee_reserved"  -> Set(r, 2, B(r, 2) + 64)
+     [] kind = "rdh_priority"      -> Set(r, 4, 1)
+     [] kind = "rdh_sysid"         -> Set(r, 5, 33)
+     [] kind = "rdh_rdh0_reserved" -> Set(r, 6, 1)
+     [] kind = "rdh_bc_dec"        -> Set(Set(r, 16, 236), 17, 13)            \* 0xDEC = BC_MAX + 1
+     [] kind = "rdh_bc_f00"        -> Set(r, 17, 15)
+     [] kind = "rdh_rdh1_reserved" -> Set(r, 18, 1)
+     [] kind = "rdh_stop2"         -> Set(r, 38, 2)
+     [] kind = "rdh_trigger_zero"  -> Set(Set(Set(Set(r, 32, 0), 33, 0), 34, 0), 35, 0)
+     [] kind = "rdh_trigger_spare" -> Set(r, 34, 1)
+     [] kind = "rdh_rdh2_reserved" -> Set(r, 39, 1)
+     [] kind = "rdh_detfield12"    -> Set(r, 49, B(r, 49) + 16)
+     [] kind = "rdh_detfield23"    -> Set(r, 50, 128)
+     [] kind = "rdh_rdh3_reserved" -> Set(r, 54, 1)
+     [] kind = "rdh_dw2"           -> Set(r, 15, 32 + (B(r, 15) % 16))
+     [] kind = "rdh_page_skip"     -> Set(r, 37, 1)
+     [] kind = "rdh_page_repeat"   -> Set(r, 36, B(r, 36) - 1)
+     [] kind = "rdh_orbit_change"  -> Set(r, 23, 1)
+     [] kind = "rdh_trigger_change" -> Set(r, 32, IF B(r, 32) % 4 = 3 THEN B(r, 32) - 2 ELSE B(r, 32) + 2)     \* HB bit toggled: still a legal type
+     [] kind = "rdh_fee_change"    -> Set(r, 2, B(r, 2) + 1)
+     [] kind = "rdh_orbit_same_after_stop" -> Set(r, 20, (OrbitOf(g[l].hbf - 1)) % 256)
+     [] kind = "rdh_stop1_on_ihw_page"  -> Set(r, 38, 1)
+     [] kind = "rdh_stop0_on_ddw0_page" -> Set(r, 38, 0)
+     [] kind = "rdh_page0_on_ddw0_page" -> Set(Set(r, 36, 0), 37, 0)
+
+\* where a fault can be applied so that exactly the named rule is the one broken there
+RdhFaultApplies(f, l, page, stop) ==
+   CASE f.kind = "rdh_sysid" -> Its
+     [] f.kind = "rdh_header_id" -> chk[l].firstVer # 256          \* the link's first header defines the reference version
+     [] f.kind \in {"rdh_page_repeat", "rdh_orbit_change", "rdh_trigger_change", "rdh_fee_change"} -> page > 0
+     [] f.kind = "rdh_orbit_same_after_stop" -> page = 0 /\ g[l].hbf > 1
+     [] f.kind = "rdh_stop1_on_ihw_page"  -> Its /\ stop = 0 /\ g[l].fsm \in {"IHW", "DONE", "NODATA"}      \* the first word will be an IHW (not a continuation IHW)
+     [] f.kind \in {"rdh_stop0_on_ddw0_page", "rdh_page0_on_ddw0_page"} -> Its /\ stop = 1
+     [] f.kind = "rdh_stop2" -> stop = 0
+     [] OTHER -> TRUE
 
 \* ---- a new packet: the RDH is checked when it is produced ----
-RdhFaults == { [kind |-> "rdh_header_size", fam |-> "10", byte |-> 1, val |-> 65],
-               [kind |-> "rdh_priority", fam |-> "10", byte |-> 4, val |-> 1],
-               [kind |-> "rdh_sysid", fam |-> "10", byte |-> 5, val |-> 33],
-               [kind |-> "rdh_bc_dec", fam |-> "10", byte |-> 17, val |-> 15],
-               [kind |-> "rdh_stop2", fam |-> "10", byte |-> 38, val |-> 2],
-               [kind |-> "rdh_dataformat3", fam |-> "10", byte |-> 24, val |-> 3],
-               [kind |-> "rdh_detfield12", fam |-> "10", byte |-> 49, val |-> 16],
-               [kind |-> "rdh_page_skip", fam |-> "11", byte |-> 37, val |-> 1],
-               [kind |-> "rdh_orbit_change", fam |-> "11", byte |-> 23, val |-> 1] }
-RdhFaultApplies(f, page, stop) == CASE f.kind = "rdh_orbit_change" -> page > 0
-                                    [] f.kind = "rdh_sysid" -> Its
-                                    [] f.kind \in {"rdh_stop2", "rdh_dataformat3"} -> FALSE     \* change how the payload is judged: separate catalogue entries
-                                    [] OTHER -> TRUE
-OpenPacketWith(l, stop, bc, g1, rdh, flt) ==
+OpenPacketWith(l, stop, bc, g1, rdh, flt, padf) ==
    LET res == CheckPacket(chk[l], noff, rdh, << >>, Cfg)
-   IN /\ stream' = Append(stream, [link |-> l, rdh |-> rdh, words |-> << >>])
+   IN /\ stream' = Append(stream, [link |-> l, rdh |-> rdh, words |-> << >>, xpad |-> IF padf THEN 16 ELSE 0])
       /\ chk' = [chk EXCEPT ![l] = res.st]
       /\ errs' = errs \o res.errs
       /\ fault' = flt
       /\ g' = [g EXCEPT ![l] = [g1 EXCEPT !.cur = Len(stream) + 1, !.open = TRUE, !.sod = TRUE, !.n = 0, !.rbc = bc,
-                                          !.dataSeen = FALSE, !.cdwDone = FALSE, !.poff = noff]]
+                                          !.dataSeen = FALSE, !.cdwDone = FALSE, !.poff = noff, !.stop = stop, !.padf = padf]]
       /\ UNCHANGED noff
 OpenPacket(l, stop, bc, g1) ==
    LET rdh == RdhOf(l, g[l].page, stop, bc) IN
-   \/ OpenPacketWith(l, stop, bc, g1, rdh, fault)
-   \/ /\ fault.kind = "none" /\ Len(stream) > 0
-      /\ \E f \in RdhFaults : RdhFaultApplies(f, g[l].page, stop)
-            /\ OpenPacketWith(l, stop, bc, g1, [rdh EXCEPT ![f.byte + 1] = f.val], [kind |-> f.kind, off |-> noff, fam |-> f.fam])
+   \/ OpenPacketWith(l, stop, bc, g1, rdh, fault, FALSE)
+   \/ /\ Faults /\ fault.kind = "none" /\ Len(stream) > 0       \* not the very first packet of the input: its RDH0 is the preliminary check (C16)
+      /\ \/ \E f \in RdhFaultKinds : /\ RdhFaultApplies(f, l, g[l].page, stop)
+                                     /\ OpenPacketWith(l, stop, bc, g1, ApplyRdh(f.kind, rdh, l),
+                                                       [kind |-> f.kind, off |-> IF f.at = "rdh" THEN noff ELSE noff + 64, fam |-> f.fam, pending |-> f.at = "word"], FALSE)
+         \/ /\ Its      \* this packet's payload will end in more than 15 bytes of 0xFF
+            /\ OpenPacketWith(l, stop, bc, g1, rdh, [kind |-> "pad_over_15", off |-> noff, fam |-> "PAYLOAD", pending |-> TRUE], TRUE)
 
 OpenPage(l) == /\ ~g[l].done /\ ~g[l].open /\ g[l].page < MaxPages
                /\ \E bc \in BcDom : (g[l].page > 0 => bc = g[l].rbc) /\ OpenPacket(l, 0, bc, g[l])
 
+\* ---------------------------------------------------------------- word fault catalogue
 WOff(l) == WordOffset(g[l].poff, Df, g[l].n)
+IdFam(s) == IF s = "NODATA" THEN "990" ELSE "992"
 WordFaults(l, w) ==
-   LET id == Id(w) s == g[l].fsm IN
-   (IF id = ID_IHW THEN {[kind |-> "ihw_id", fam |-> IF s \in {"IHW", "c_IHW"} THEN "30" ELSE IF s = "NODATA" THEN "990" ELSE "992", w |-> [w EXCEPT ![10] = 225]], [kind |-> "ihw_reserved", fam |-> "30", w |-> [w EXCEPT ![6] = 1]]} ELSE {})
-   \cup (IF id = ID_TDH THEN {[kind |-> "tdh_id", fam |-> IF s \in {"TDH", "c_TDH"} THEN "40" ELSE IF s = "NODATA" THEN "990" ELSE "992", w |-> [w EXCEPT ![10] = 233]],
+   LET id == Id(w) s == g[l].fsm  ck == chk[l] IN
+   (IF id = ID_IHW THEN {[kind |-> "ihw_id", fam |-> IF s \in {"IHW", "c_IHW"} THEN "30" ELSE IdFam(s), w |-> [w EXCEPT ![10] = 225]],
+                         [kind |-> "ihw_reserved", fam |-> "30", w |-> [w EXCEPT ![6] = 1]],
+                         [kind |-> "ihw_reserved_bit28", fam |-> "30", w |-> [w EXCEPT ![4] = @ + 16]]} ELSE {})
+   \cup (IF id = ID_TDH THEN {[kind |-> "tdh_id", fam |-> IF s \in {"TDH", "c_TDH"} THEN "40" ELSE IdFam(s), w |-> [w EXCEPT ![10] = 233]],
                               [kind |-> "tdh_reserved", fam |-> "40", w |-> [w EXCEPT ![9] = 1]],
+                              [kind |-> "tdh_reserved_bit15", fam |-> "40", w |-> [w EXCEPT ![2] = @ + 128]],
                               [kind |-> "tdh_no_trigger", fam |-> "40", w |-> [w EXCEPT ![1] = 0, ![2] = (w[2] \div 32) * 32]]} ELSE {})
-   \cup (IF id = ID_TDH /\ Running /\ s = "TDH" THEN {[kind |-> "tdh_cont_after_ihw", fam |-> "42", w |-> [w EXCEPT ![2] = w[2] + 64]],
-                                                       [kind |-> "tdh_orbit_ne_rdh", fam |-> "444", w |-> [w EXCEPT ![8] = 9]]} ELSE {})
-   \cup (IF id = ID_TDH /\ Running /\ s = "c_TDH" THEN {[kind |-> "ctdh_cont0", fam |-> "41", w |-> [w EXCEPT ![2] = w[2] - 64]],
-                                                         [kind |-> "ctdh_bc", fam |-> "441", w |-> [w EXCEPT ![3] = w[3] + 1]],
-                                                         [kind |-> "ctdh_orbit", fam |-> "442", w |-> [w EXCEPT ![8] = 9]]} ELSE {})
-   \cup (IF id = ID_TDT THEN {[kind |-> "tdt_id", fam |-> "991", w |-> [w EXCEPT ![10] = 241]], [kind |-> "tdt_reserved", fam |-> "50", w |-> [w EXCEPT ![8] = 1]]} ELSE {})
-   \cup (IF id = ID_DDW0 THEN {[kind |-> "ddw0_id", fam |-> IF s = "NODATA" THEN "990" ELSE "992", w |-> [w EXCEPT ![10] = 229]],
+   \cup (IF id = ID_TDH /\ s = "TDH" THEN {[kind |-> "tdh_cont_after_ihw", fam |-> "42", w |-> [w EXCEPT ![2] = w[2] + 64]],
+                                            [kind |-> "tdh_orbit_ne_rdh", fam |-> "444", w |-> [w EXCEPT ![8] = 9]]} ELSE {})
+   \cup (IF id = ID_TDH /\ s = "TDH" /\ g[l].page = 0      \* the first TDH of an HBF carries the RDH's bc and trigger type
+           THEN {[kind |-> "tdh_bc_ne_rdh", fam |-> "445", w |-> [w EXCEPT ![3] = (w[3] + 1) % 256]],
+                 [kind |-> "tdh_tt_ne_rdh", fam |-> "44", w |-> [w EXCEPT ![1] = IF (w[1] \div 4) % 2 = 1 THEN w[1] - 4 ELSE w[1] + 4]]} ELSE {})
+   \cup (IF id = ID_TDH /\ s \in {"DONE", "NODATA"} /\ ck.tdh.has /\ TdhBc(w) > 0 /\ ck.tdh.bc > 0
+           THEN {[kind |-> "tdh_bc_decreasing", fam |-> "440", w |-> [w EXCEPT ![3] = (ck.tdh.bc - 1) % 256, ![4] = (ck.tdh.bc - 1) \div 256]]} ELSE {})
+   \cup (IF id = ID_TDH /\ s = "c_TDH" THEN {[kind |-> "ctdh_cont0", fam |-> "41", w |-> [w EXCEPT ![2] = w[2] - 64]],
+                                              [kind |-> "ctdh_bc", fam |-> "441", w |-> [w EXCEPT ![3] = (w[3] + 1) % 256]],
+                                              [kind |-> "ctdh_orbit", fam |-> "442", w |-> [w EXCEPT ![8] = 9]],
+                                              [kind |-> "ctdh_tt", fam |-> "443", w |-> [w EXCEPT ![1] = IF (w[1] \div 4) % 2 = 1 THEN w[1] - 4 ELSE w[1] + 4]]} ELSE {})
+   \cup (IF id = ID_TDT THEN {[kind |-> "tdt_id", fam |-> "991", w |-> [w EXCEPT ![10] = 241]],
+                              [kind |-> "tdt_reserved", fam |-> "50", w |-> [w EXCEPT ![8] = 1]],
+                              [kind |-> "tdt_reserved_bit66", fam |-> "50", w |-> [w EXCEPT ![9] = @ + 4]]} ELSE {})
+   \cup (IF id = ID_DDW0 THEN {[kind |-> "ddw0_id", fam |-> IdFam(s), w |-> [w EXCEPT ![10] = 229]],
                                [kind |-> "ddw0_index", fam |-> "60", w |-> [w EXCEPT ![9] = 16]],
                                [kind |-> "ddw0_reserved", fam |-> "60", w |-> [w EXCEPT ![8] = 1]]} ELSE {})
-   \cup (IF IsDataId(id) THEN {[kind |-> "dw_id_invalid", fam |-> "70", w |-> [w EXCEPT ![10] = 41]]} ELSE {})
-   \cup (IF IsDataId(id) /\ Running THEN {[kind |-> "dw_lane_inactive", fam |-> "72", w |-> [w EXCEPT ![10] = 37]]} ELSE {})
+   \cup (IF id = ID_CDW /\ ck.cdw.has THEN {[kind |-> "cdw_user_changed_index_not_0", fam |-> "81", w |-> [w EXCEPT ![1] = @ + 1]]} ELSE {})
+   \cup (IF IsDataId(id) THEN {[kind |-> "dw_id_invalid", fam |-> "70", w |-> [w EXCEPT ![10] = 41]],
+                               [kind |-> "dw_lane_inactive", fam |-> IF Ob THEN "71" ELSE "72", w |-> [w EXCEPT ![10] = InactiveId]]} ELSE {})
+   \cup (IF IsDataId(id) /\ Ob THEN {[kind |-> "dw_ob_input7", fam |-> "73", w |-> [w EXCEPT ![10] = 71]]} ELSE {})
+
 AddWordWith(l, w, wreal, flt) ==
-   LET res == IF Its THEN CheckWord(chk[l], CurRdh(l), Running, g[l].sod, wreal, WOff(l)) ELSE [st |-> chk[l], errs |-> << >>, sod |-> FALSE]
+   LET skip == ~Its \/ g[l].padf            \* payload not examined (no target), or skipped because of its padding
+       res == IF skip THEN [st |-> chk[l], errs |-> << >>, sod |-> FALSE] ELSE CheckWord(chk[l], CurRdh(l), Running, g[l].sod, wreal, WOff(l))
    IN /\ g[l].open
       /\ chk' = [chk EXCEPT ![l] = res.st]
       /\ errs' = errs \o res.errs
-      /\ fault' = flt /\ UNCHANGED noff
+      /\ fault' = IF flt.pending /\ ~g[l].padf /\ flt.kind # "pad_over_15" THEN [flt EXCEPT !.pending = FALSE] ELSE flt
+      /\ UNCHANGED noff
       /\ stream' = [stream EXCEPT ![g[l].cur].words = Append(@, wreal)]
       /\ g' = [g EXCEPT ![l].n = @ + 1, ![l].fsm = Succ(g[l].fsm, w), ![l].sod = res.sod,
                         ![l].last = IF Id(w) = ID_TDH THEN TdhRec(w) ELSE @,
                         ![l].cdwDone = IF Id(w) = ID_CDW THEN TRUE ELSE @,
                         ![l].dataSeen = IF IsDataId(Id(w)) \/ Id(w) = ID_CDW THEN TRUE ELSE @]
 AddWord(l, w) == \/ AddWordWith(l, w, w, fault)
-                 \/ /\ fault.kind = "none" /\ Its
-                    /\ \E f \in WordFaults(l, w) : AddWordWith(l, w, f.w, [kind |-> f.kind, off |-> WOff(l), fam |-> f.fam])
+                 \/ /\ Faults /\ fault.kind = "none" /\ Its
+                    /\ \E f \in WordFaults(l, w) : AddWordWith(l, w, f.w, [kind |-> f.kind, off |-> WOff(l), fam |-> f.fam, pending |-> FALSE])
 
-EmitIhw(l) == g[l].open /\ g[l].n = 0 /\ Stop(CurRdh(l)) = 0 /\ g[l].fsm \in {"IHW", "c_IHW", "DONE", "NODATA"} /\ AddWord(l, MkIhw(LanesOf(l)))
+EmitIhw(l) == g[l].open /\ g[l].n = 0 /\ g[l].stop = 0 /\ g[l].fsm \in {"IHW", "c_IHW", "DONE", "NODATA"} /\ AddWord(l, MkIhw(LanesOf(l)))
 
 EmitTdh(l) ==
   /\ g[l].open /\ g[l].n > 0 /\ (g[l].n + 1 < MaxWords \/ g[l].fsm = "c_TDH") /\ g[l].fsm \in {"TDH", "c_TDH", "DONE", "NODATA"}
@@ -113,27 +223,41 @@ EmitData(l) == g[l].open /\ g[l].n + 1 < MaxWords /\ g[l].fsm \in {"DATA", "c_DA
 EmitTdt(l) == g[l].open /\ g[l].fsm \in {"DATA", "c_DATA"}
               /\ \E d \in {0, 1} : (d = 0 => g[l].page + 1 < MaxPages) /\ AddWord(l, MkTdt(d))
 
-ClosePage(l) == /\ g[l].open /\ Stop(CurRdh(l)) = 0 /\ g[l].fsm \in {"DONE", "NODATA", "c_IHW"}
-                /\ g' = [g EXCEPT ![l].open = FALSE, ![l].page = @ + 1]
-                /\ noff' = noff + 64 + PayLen(g[l].n)
-                /\ UNCHANGED << chk, stream, errs, fault >>
+\* closing a packet whose payload carries the padding fault: the whole payload is reported once at the RDH and the protocol state is reset
+ClosePad(l) == IF g[l].padf THEN /\ chk' = [chk EXCEPT ![l].fsm = InitState]
+                                 /\ errs' = errs \o E(g[l].poff, "PAYLOAD")
+                                 /\ fault' = [fault EXCEPT !.pending = FALSE]
+               ELSE UNCHANGED << chk, errs, fault >>
+\* (a packet that carries a fault located at its first word is not closed empty)
+ClosePage(l) == /\ g[l].open /\ g[l].stop = 0 /\ g[l].fsm \in {"DONE", "NODATA", "c_IHW"}
+                /\ ~(fault.pending /\ fault.kind # "pad_over_15" /\ g[l].n = 0 /\ fault.off = g[l].poff + 64)
+                /\ g' = [g EXCEPT ![l].open = FALSE, ![l].page = @ + 1, ![l].padf = FALSE]
+                /\ noff' = noff + 64 + PayLen(g[l].n, stream[g[l].cur].xpad)
+                /\ ClosePad(l) /\ UNCHANGED stream
 
 \* the stop page: RDH(stop=1) + DDW0, then the next HBF
 StopPage(l) == /\ ~g[l].done /\ ~g[l].open /\ g[l].page >= 1 /\ g[l].fsm \in {"DONE", "NODATA"}
                /\ OpenPacket(l, 1, g[l].rbc, g[l])
-EmitDdw0(l) == g[l].open /\ Stop(CurRdh(l)) = 1 /\ g[l].n = 0 /\ AddWord(l, MkDdw0)
-CloseHbf(l) == /\ g[l].open /\ Stop(CurRdh(l)) = 1 /\ g[l].n = 1
-               /\ g' = [g EXCEPT ![l].open = FALSE, ![l].page = 0, ![l].hbf = @ + 1, ![l].last = NoTdh, ![l].done = (g[l].hbf = MaxHbf)]
-               /\ noff' = noff + 64 + PayLen(g[l].n)
-               /\ UNCHANGED << chk, stream, errs, fault >>
+EmitDdw0(l) == g[l].open /\ g[l].stop = 1 /\ g[l].n = 0 /\ AddWord(l, MkDdw0)
+CloseHbf(l) == /\ g[l].open /\ g[l].stop = 1 /\ g[l].n = 1
+               /\ g' = [g EXCEPT ![l].open = FALSE, ![l].page = 0, ![l].hbf = @ + 1, ![l].last = NoTdh, ![l].done = (g[l].hbf = MaxHbf), ![l].padf = FALSE]
+               /\ noff' = noff + 64 + PayLen(g[l].n, stream[g[l].cur].xpad)
+               /\ ClosePad(l) /\ UNCHANGED stream
 
 Next == \E l \in Links : OpenPage(l) \/ EmitIhw(l) \/ EmitTdh(l) \/ EmitCdw(l) \/ EmitData(l) \/ EmitTdt(l)
                          \/ ClosePage(l) \/ StopPage(l) \/ EmitDdw0(l) \/ CloseHbf(l)
 AllDone == \A l \in Links : g[l].done
 Spec == Init /\ [][Next]_vars
+
+\* ---------------------------------------------------------------- properties
+\* C01 (design level): without a fault the documented checks report nothing on what the grammar produces
 NoFalseAlarm == fault.kind = "none" => errs = << >>
 Detected == \E i \in 1..Len(errs) : errs[i].off = fault.off /\ errs[i].code = fault.fam
-\* the fault must be reported as soon as the faulty item has been consumed (and stay reported)
-FaultDetected == fault.kind # "none" => Detected
+Active(fam) == (fam \in RunningFams => Running) /\ (fam \notin {"10", "11"} => Its)
+\* C02 (design level): as soon as the offending item has been consumed the rule's family is reported at its offset, in every
+\* mode where the rule is active; a purely running fault is not reported at all by the sanity checks
+FaultDetected == (fault.kind # "none" /\ ~fault.pending) =>
+                    IF Active(fault.fam) THEN Detected
+                    ELSE \A i \in 1..Len(errs) : ~(errs[i].off = fault.off /\ errs[i].code = fault.fam)
 AbsView == << [l \in Links |-> [g[l] EXCEPT !.cur = 0]], chk, errs, fault, noff >>
 ===============================================================================
